@@ -3,7 +3,7 @@
 //! Input: `(hist <path> (<projected instruction>…))` — an insertion history and the public construction
 //! path used. Output: the copying listing, the consuming listing, the listing of the program rebuilt
 //! from the listing, both texts, `rebuilt == original`, both used-qubit sets.
-use qvh::progwire::{pool_or_exit, Proj};
+use qvh::progwire::{parse_one, pool_or_exit, Proj};
 use qvh::*;
 use quil_rs::instruction::Instruction;
 use quil_rs::quil::Quil;
@@ -122,7 +122,7 @@ fn text_stable(is: &[Instruction]) -> bool {
 }
 
 fn one(t: &str) -> Instruction {
-    qvh::progs::parse_one(t)
+    parse_one(t)
 }
 
 fn run(ctx: &mut Ctx) {
